@@ -192,45 +192,12 @@ func (be *boolEval) eval(v ssa.Value, assign uint, d int) bool {
 		}
 	case *ssa.Phi:
 		if isBool(x) {
-			blk := x.Block()
-			cur := blk.Idom()
-			if cur == nil {
+			e, ok := be.pickEdge(x, assign, d)
+			if !ok {
 				be.fail = true
 				return false
 			}
-			var prev *ssa.BasicBlock
-			for steps := 0; steps < 64; steps++ {
-				if cur == blk {
-					for i, p := range blk.Preds {
-						if p == prev {
-							return be.eval(x.Edges[i], assign, d+1)
-						}
-					}
-					be.fail = true
-					return false
-				}
-				n := len(cur.Instrs)
-				if n == 0 {
-					break
-				}
-				switch t := cur.Instrs[n-1].(type) {
-				case *ssa.If:
-					prev = cur
-					if be.eval(t.Cond, assign, d+1) {
-						cur = cur.Succs[0]
-					} else {
-						cur = cur.Succs[1]
-					}
-					continue
-				case *ssa.Jump:
-					prev = cur
-					cur = cur.Succs[0]
-					continue
-				}
-				break
-			}
-			be.fail = true
-			return false
+			return be.eval(e, assign, d+1)
 		}
 	}
 	i, pol := be.atom(v)
@@ -492,4 +459,124 @@ func FindGateDNF(p *Prog, fn *ssa.Function, name string, terms [][]AtomMatcher) 
 		}
 	})
 	return g
+}
+
+// pickEdge: the input a merge takes under an assignment of the atoms, found by following the
+// branches from the immediate dominator of the merge's block. Merges at loop headers (values
+// carried around a loop) are outside the domain.
+func (be *boolEval) pickEdge(x *ssa.Phi, assign uint, d int) (ssa.Value, bool) {
+	blk := x.Block()
+	for _, p := range blk.Preds {
+		if blk.Dominates(p) {
+			return nil, false
+		}
+	}
+	cur := blk.Idom()
+	if cur == nil {
+		return nil, false
+	}
+	var prev *ssa.BasicBlock
+	for steps := 0; steps < 64; steps++ {
+		if cur == blk {
+			for i, p := range blk.Preds {
+				if p == prev {
+					return x.Edges[i], true
+				}
+			}
+			return nil, false
+		}
+		n := len(cur.Instrs)
+		if n == 0 {
+			return nil, false
+		}
+		switch t := cur.Instrs[n-1].(type) {
+		case *ssa.If:
+			prev = cur
+			v := be.eval(t.Cond, assign, d+1)
+			if be.fail {
+				return nil, false
+			}
+			if v {
+				cur = cur.Succs[0]
+			} else {
+				cur = cur.Succs[1]
+			}
+			continue
+		case *ssa.Jump:
+			prev = cur
+			cur = cur.Succs[0]
+			continue
+		}
+		return nil, false
+	}
+	return nil, false
+}
+
+// ValEval reads values that are selected by branches (merges of merges) as a function of the
+// branch conditions' atoms: for every assignment of the atoms, Leaf returns the input that
+// reaches the value.
+type ValEval struct {
+	be      *boolEval
+	through func(c *ssa.Call) bool
+}
+
+// NewValEval collects the atoms that decide the roots. through selects calls whose arguments are
+// to be followed as well (e.g. a midpoint of two selected values).
+func NewValEval(through func(c *ssa.Call) bool, roots ...ssa.Value) *ValEval {
+	ve := &ValEval{be: &boolEval{index: map[boolAtomKey]int{}}, through: through}
+	seen := map[ssa.Value]bool{}
+	bseen := map[ssa.Value]bool{}
+	var walk func(v ssa.Value, d int)
+	walk = func(v ssa.Value, d int) {
+		if d > 24 || seen[v] {
+			return
+		}
+		seen[v] = true
+		switch x := v.(type) {
+		case *ssa.Phi:
+			if isBool(x) {
+				ve.be.collect(x, bseen, 0)
+				return
+			}
+			for _, e := range x.Edges {
+				walk(e, d+1)
+			}
+			for _, b := range boolRegion(x) {
+				if n := len(b.Instrs); n > 0 {
+					if iff, ok := b.Instrs[n-1].(*ssa.If); ok {
+						ve.be.collect(iff.Cond, bseen, 0)
+					}
+				}
+			}
+		case *ssa.Call:
+			if through != nil && through(x) {
+				for _, a := range x.Call.Args {
+					walk(a, d+1)
+				}
+			}
+		}
+	}
+	for _, r := range roots {
+		walk(r, 0)
+	}
+	return ve
+}
+
+func (ve *ValEval) Atoms() []BoolAtom { return ve.be.atoms }
+
+// Leaf: the non-merge value that reaches v under the assignment.
+func (ve *ValEval) Leaf(v ssa.Value, assign uint) (ssa.Value, bool) {
+	n := len(ve.be.atoms)
+	for i := 0; i < 32; i++ {
+		ph, ok := v.(*ssa.Phi)
+		if !ok || isBool(ph) {
+			return v, true
+		}
+		e, ok := ve.be.pickEdge(ph, assign, 0)
+		if !ok || ve.be.fail || len(ve.be.atoms) != n {
+			return nil, false
+		}
+		v = e
+	}
+	return nil, false
 }
